@@ -347,6 +347,22 @@ def check_model (spec):
                     J.tok ('near_hdr.start', h [0], o ['near'][0][k])
                     J.tok ('near_hdr.inc', h [1], o ['near'][1][k])
                     J.tok ('near_hdr.n', h [2], o ['near'][2][k], integer = True)
+    # ---- the same object solved again with other source voltages: the current table printed afterwards
+    # shows the new currents in all four columns
+    src = [(s_.idx, complex (s_.voltage)) for s_ in m.sources]
+    m.sources = []
+    for idx, v in src:
+        common.guarded (lambda: m.register_source (MM.Excitation (v * (0.3 - 1.7j)), idx), 'register_source')
+    observe.solve (m)
+    rep2 = report.parse (common.guarded (m.currents_as_mininec, 'currents_as_mininec'))
+    if len (rep2 ['currents']) != len (m.geo):
+        bad ('current-blocks', 'after a second solve: %d current blocks for %d objects' % (len (rep2 ['currents']), len (m.geo)))
+    for rb, g in zip (rep2 ['currents'], m.geo):
+        ps = [p for p in g.pulses if p.geo [0] is p.geo [1]]
+        rows = [r for r in rb ['rows'] if r ['kind'] == 'P']
+        if len (rows) == len (ps):
+            for r, p in zip (rows, ps):
+                J.cplx ('currents.again', [r ['re'], r ['im'], r ['mag'], r ['ph']], m.current [p.idx])
     sig = gen.signature (spec, m, extra = ['+'.join (sorted (J.blocks))])
     return dict ( status = 'violation' if viol else 'held', sig = sig
                 , nontrivial = J.n >= 200 and len (J.blocks) >= 6, margin = J.worst
